@@ -304,7 +304,7 @@ func (s *State) rangeAssume(l leaf, term string) {
 				s.assume(and(app("<=", lo, term), app("<=", term, hi)))
 			}
 		} else { // slice off/len, iface tag
-			s.assume(app("<=", "0", term))
+			s.assume(and(app("<=", "0", term), app("<=", term, "9223372036854775807")))
 		}
 	case kRef:
 		s.assume(and(app("<=", "0", term), app("<", term, s.alloc)))
